@@ -54,6 +54,9 @@ C10_Sweep(e, V) ==
      \E c \in e.centers :
         /\ (e.shape \in Circular => \A i \in DOMAIN V : RadOK(V[i], c, e.r, 3))
         /\ AbsI(SumSeq(Steps(V, c, e.res)) - ExpectedSweep(e, c)) <= SweepTol(e, V, c)
+        \* arc_radius: a positive radius selects the minor arc, a negative one the major arc
+        /\ e.minor = "minor" => AbsI(SumSeq(Steps(V, c, e.res))) <= PI5 + SweepTol(e, V, c)
+        /\ e.minor = "major" => AbsI(SumSeq(Steps(V, c, e.res))) >= PI5 - SweepTol(e, V, c)
 \* advances monotonically in the selected direction
 C10_Direction(e, V) ==
   (e.shape \in Angular /\ e.far) =>
